@@ -40,7 +40,7 @@ Proof.
   { destruct st as [|x st1]; [exact I|]. destruct (into_int m x); [|exact I]. destruct (e_mem E z); exact I. }
   destruct (beq t T_undef). { exact I. }
   destruct (starts_var t). { exact I. }
-  destruct (parse_int 32 t); exact I.
+  destruct (parse_int 64 t); exact I.
 Qed.
 
 Lemma win_loop_ok : forall p E toks ms, ok (win_loop p E toks ms).
